@@ -95,6 +95,7 @@ class Path:
         self.logs = []
         self.sqrts = []
         self.atan2s = []
+        self.divisors = {}     # denominators whose cancellation canon() relied on
         self.opaques = {}     # name -> list of (args tuple, result const)
         self.rng_limit = None
 
@@ -185,7 +186,7 @@ class Path:
     # ------------------------------------------------------------------- trig
     def trig_atom(self, arg):
         """(cos, sin) constants for an opaque angle term `arg`."""
-        arg = z3.simplify(arg)
+        arg = canon(arg, self)
         key = arg.sexpr()
         if key not in self.atoms:
             c = self.fresh('cos')
@@ -266,7 +267,7 @@ class Path:
     def sqrt(self, a, known_nonneg=False):
         """known_nonneg: the caller guarantees a >= 0 structurally (a sum of squares), so the
         defining axiom is stated unconditionally"""
-        a = z3.simplify(a)
+        a = canon(a, self)
         v = _numeral(a)
         if v is not None and v >= 0:
             n, d = v.numerator, v.denominator
@@ -297,8 +298,8 @@ class Path:
         return self.cached('cbrt', [a], make)
 
     def arctan2(self, y, x):
-        y = z3.simplify(y)
-        x = z3.simplify(x)
+        y = canon(y, self)
+        x = canon(x, self)
 
         def make():
             t = self.fresh('atan2')
@@ -375,8 +376,8 @@ class Path:
 
     def fmod_floor(self, x, m):
         """(k, r) with x = k*m + r, r in [0, m) for m > 0, (m, 0] for m < 0"""
-        x = z3.simplify(x)
-        m = z3.simplify(m)
+        x = canon(x, self)
+        m = canon(m, self)
 
         def make():
             k = self.fresh('fdiv', 'int')
@@ -389,7 +390,7 @@ class Path:
         return k, x - z3.ToReal(k) * m
 
     def exp(self, a):
-        a = z3.simplify(a)
+        a = canon(a, self)
         v = _numeral(a)
         if v is not None and v == 0:
             return _rv(1)
@@ -404,7 +405,7 @@ class Path:
         return self.cached('exp', [a], make)
 
     def log(self, a):
-        a = z3.simplify(a)
+        a = canon(a, self)
         v = _numeral(a)
         if v is not None and v == 1:
             return _rv(0)
@@ -421,7 +422,7 @@ class Path:
         """value of an uninterpreted (deterministic) function `name` at `args` (z3 terms): one
         constant per syntactically distinct argument tuple; congruence is supplied as conditional
         instances by lemma_instances (the VCs stay free of uninterpreted functions)"""
-        args = tuple(z3.simplify(a) for a in args)
+        args = tuple(canon(a, self) for a in args)
         key = ('opaque', name) + tuple(a.get_id() for a in args)
         if key not in self.cache:
             self.keep.extend(args)
@@ -493,9 +494,6 @@ class Path:
             for i, (y1, x1, t1) in enumerate(self.atan2s):
                 for (y2, x2, t2) in self.atan2s[i + 1:]:
                     out.append(z3.Implies(z3.And(y1 == y2, x1 == x2), t1 == t2))       # congruence of arctan2
-                    # arctan2 is invariant under positive rescaling of (y, x)
-                    out.append(z3.Implies(z3.And(y1 * x2 == y2 * x1, y1 * y2 >= 0, x1 * x2 >= 0,
-                                                 z3.Or(y1 != 0, x1 != 0), z3.Or(y2 != 0, x2 != 0)), t1 == t2))
         if len(self.sqrts) <= 40:
             for i, (a, r) in enumerate(self.sqrts):
                 for (b, q) in self.sqrts[i + 1:]:
@@ -626,8 +624,13 @@ def _poly(t, depth=0):
             (m, q), = dp.items()
             inv = tuple((k, -p) for k, p in m)
             return _poly_mul(_poly(num, depth + 1), {inv: 1 / q})
-        key = _atom_key(z3.RealVal(1) / den)
-        return _poly_mul(_poly(num, depth + 1), {((key, 1),): Fraction(1)})
+        # a genuine polynomial denominator: use its canonical expansion, normalised to leading coefficient 1,
+        # as the atom, so that equal denominators written differently share it
+        lead = sorted(dp, key=repr)[0]
+        q0 = dp[lead]
+        den_c = _rebuild({m: q / q0 for m, q in dp.items()})
+        key = _atom_key(z3.RealVal(1) / den_c)
+        return _poly_mul(_poly(num, depth + 1), {((key, 1),): 1 / q0})
     if z3.is_app_of(t, z3.Z3_OP_TO_REAL):
         inner = t.arg(0)
         if z3.is_app_of(inner, z3.Z3_OP_ADD) or z3.is_app_of(inner, z3.Z3_OP_SUB) or \
@@ -642,6 +645,16 @@ def _poly(t, depth=0):
                 out = _poly_mul(out, base)
             return out
     return {((_atom_key(t), 1),): Fraction(1)}
+
+
+def _rebuild(p):
+    total = None
+    for m in sorted(p, key=repr):
+        q = p[m]
+        term = _mono_expr(m) if m else None
+        t = _rv(q) if term is None else (term if q == 1 else _rv(q) * term)
+        total = t if total is None else total + t
+    return total if total is not None else z3.RealVal(0)
 
 
 _ATOMS = {}
@@ -679,6 +692,59 @@ def _mono_expr(m):
     if num is None:
         num = z3.RealVal(1)
     return num if den is None else num / den
+
+
+def canon(e, path=None):
+    """canonical form of a real term: the fully expanded polynomial over atoms with integer (possibly
+    negative) powers, rebuilt with monomials and factors in sorted order.  Equal rational functions such as
+    (k/s)*(s*x - s*c) and k*(x - c) get the SAME term.  Cancelling d * (1/d) assumes d != 0: the cancelled
+    denominators are recorded on the path and proved non-zero under the path condition ('divisors-nonzero')."""
+    e = z3.simplify(e)
+    if e.sort().kind() != z3.Z3_REAL_SORT:
+        return e
+    try:
+        p = _poly(e)
+    except (OverflowError, RecursionError):
+        return e
+    if len(p) > 60:
+        return e
+    # which atoms occur with a negative power in the input (denominators)
+    total = z3.RealVal(0)
+    first = True
+    for m in sorted(p, key=repr):
+        q = p[m]
+        term = _mono_expr(m) if m else None
+        if term is None:
+            t = _rv(q)
+        elif q == 1:
+            t = term
+        else:
+            t = _rv(q) * term
+        total = t if first else total + t
+        first = False
+    if first:
+        return z3.RealVal(0)
+    if path is not None:
+        for d in _denominators(e):
+            k = d.get_id()
+            if k not in path.divisors:
+                path.divisors[k] = d
+    return total
+
+
+def _denominators(e, acc=None, seen=None):
+    """non-numeral denominators occurring in e"""
+    acc = [] if acc is None else acc
+    seen = set() if seen is None else seen
+    k = e.get_id()
+    if k in seen:
+        return acc
+    seen.add(k)
+    if z3.is_app_of(e, z3.Z3_OP_DIV) and _numeral(e.arg(1)) is None:
+        acc.append(e.arg(1))
+    for ch in e.children():
+        _denominators(ch, acc, seen)
+    return acc
 
 
 def lin_decompose(e):
